@@ -8,6 +8,9 @@ CONSTANTS
   FixBatch = FALSE
   LossySend = TRUE
   HasKeepalive = TRUE
+  DirectCalls = TRUE
+  MaxMsgLen = 1
+  AsyncApply = FALSE
 INVARIANTS TypeOK InSyncUnlessAmbiguous SetTracksDeps NoDeadlock
 
 CHECK_DEADLOCK FALSE
